@@ -61,76 +61,98 @@ static spec_len spec_der_len(const unsigned char *b, size_t avail) {
 /* ---- X.690 8.3 INTEGER, as one component of an ECDSA signature ----
  * ok: a well-formed DER INTEGER element starts at b and lies inside the avail octets;
  * total: octets occupied (identifier + length + contents);
- * inrange: its value v satisfies 0 <= v < n (group order); v32: that value, big-endian (zero if not inrange). */
-typedef struct { int ok; size_t total; int inrange; unsigned char v32[32]; } spec_int;
+ * moff, ml: where in b the magnitude octets (contents without the single possible leading 00) start, and how many;
+ * inrange: the value v satisfies 0 <= v < n (group order).
+ * spec_der_int_vbyte(b, I, i): octet i of the 32-byte big-endian value (zero when not inrange). */
+typedef struct { int ok; size_t total; int inrange; size_t moff, ml; } spec_int;
+static unsigned char spec_der_int_mbyte(const unsigned char *b, size_t moff, size_t ml, size_t i) {
+    return (ml <= 32 && i >= 32 - ml) ? b[moff + i - (32 - ml)] : 0;   /* right-aligned in 32 octets */
+}
 static spec_int spec_der_int(const unsigned char *b, size_t avail) {
-    spec_int o; spec_len L; const unsigned char *c, *m; size_t ml; int i, neg;
-    o.ok = 0; o.total = 0; o.inrange = 0;
-    for (i = 0; i < 32; i++) o.v32[i] = 0;
+    spec_int o; spec_len L; size_t c; int i, neg, lt = 0, decided = 0;
+    o.ok = 0; o.total = 0; o.inrange = 0; o.moff = 0; o.ml = 0;
     if (avail < 1 || b[0] != 0x02) return o;     /* 8.3.1 primitive, universal tag 2 => identifier octet 0x02 */
     L = spec_der_len(b + 1, avail - 1);
     if (!L.ok) return o;
     if (L.val == 0) return o;                    /* 8.3.1 contents: one or more octets */
     if (L.val > avail - 1 - L.hdr) return o;     /* contents truncated */
-    c = b + 1 + L.hdr;
+    c = 1 + L.hdr;                               /* contents start */
     if (L.val > 1) {                             /* 8.3.2 the first nine bits shall not all be zero / all be one */
-        if (c[0] == 0x00 && (c[1] & 0x80) == 0) return o;
-        if (c[0] == 0xFF && (c[1] & 0x80) != 0) return o;
+        if (b[c] == 0x00 && (b[c + 1] & 0x80) == 0) return o;
+        if (b[c] == 0xFF && (b[c + 1] & 0x80) != 0) return o;
     }
     o.ok = 1; o.total = 1 + L.hdr + L.val;
-    neg = (c[0] & 0x80) != 0;                    /* 8.3.3 two's complement: top bit is the sign */
-    if (c[0] == 0x00) { m = c + 1; ml = L.val - 1; } else { m = c; ml = L.val; }   /* magnitude octets, no leading zero */
-    if (neg || ml > 32) return o;                /* negative, or >= 2^256 (leading magnitude octet is non-zero) */
-    for (i = 0; i < 32; i++) o.v32[i] = ((size_t)i >= 32 - ml) ? m[(size_t)i - (32 - ml)] : 0;
-    if (spec_lt_be32(o.v32, SPEC_N_BE)) { o.inrange = 1; return o; }
-    for (i = 0; i < 32; i++) o.v32[i] = 0;
+    neg = (b[c] & 0x80) != 0;                    /* 8.3.3 two's complement: top bit is the sign */
+    if (b[c] == 0x00) { o.moff = c + 1; o.ml = L.val - 1; } else { o.moff = c; o.ml = L.val; }
+    if (neg || o.ml > 32) return o;              /* negative, or >= 2^256 (the leading magnitude octet is non-zero) */
+    for (i = 0; i < 32; i++) {                   /* value < n ? */
+        unsigned char vb = spec_der_int_mbyte(b, o.moff, o.ml, (size_t)i);
+        if (!decided && vb != SPEC_N_BE[i]) { lt = vb < SPEC_N_BE[i]; decided = 1; }
+    }
+    o.inrange = lt;
     return o;
 }
+static unsigned char spec_der_int_vbyte(const unsigned char *b, spec_int I, size_t i) {
+    return I.inrange ? spec_der_int_mbyte(b, I.moff, I.ml, i) : 0;
+}
 
-/* ---- ECDSA-Sig-Value: SEQUENCE { r INTEGER, s INTEGER }, DER, exactly len octets ---- */
-typedef struct { int ok; int r_in, s_in; unsigned char r[32], s[32]; } spec_sig;
+/* ---- ECDSA-Sig-Value: SEQUENCE { r INTEGER, s INTEGER }, DER, exactly len octets ----
+ * R, S: the two elements; roff, soff: where they start in b */
+typedef struct { int ok; spec_int R, S; size_t roff, soff; } spec_sig;
 static spec_sig spec_der_sig(const unsigned char *b, size_t len) {
-    spec_sig o; spec_len L; spec_int R, S; int i;
-    o.ok = 0; o.r_in = 0; o.s_in = 0;
-    for (i = 0; i < 32; i++) { o.r[i] = 0; o.s[i] = 0; }
+    spec_sig o; spec_len L;
+    o.ok = 0; o.roff = 0; o.soff = 0;
+    o.R.ok = 0; o.R.total = 0; o.R.inrange = 0; o.R.moff = 0; o.R.ml = 0; o.S = o.R;
     if (len < 1 || b[0] != 0x30) return o;       /* 8.9.1 constructed, universal tag 16 => identifier octet 0x30 */
     L = spec_der_len(b + 1, len - 1);
     if (!L.ok) return o;
     if (L.val != len - 1 - L.hdr) return o;      /* contents truncated, or octets after the SEQUENCE */
-    R = spec_der_int(b + 1 + L.hdr, L.val);
-    if (!R.ok) return o;
-    S = spec_der_int(b + 1 + L.hdr + R.total, L.val - R.total);
-    if (!S.ok) return o;
-    if (R.total + S.total != L.val) return o;    /* octets after s inside the SEQUENCE */
-    o.ok = 1; o.r_in = R.inrange; o.s_in = S.inrange;
-    for (i = 0; i < 32; i++) { o.r[i] = R.v32[i]; o.s[i] = S.v32[i]; }
+    o.roff = 1 + L.hdr;
+    o.R = spec_der_int(b + o.roff, L.val);
+    if (!o.R.ok) return o;
+    o.soff = o.roff + o.R.total;
+    o.S = spec_der_int(b + o.soff, L.val - o.R.total);
+    if (!o.S.ok) return o;
+    if (o.R.total + o.S.total != L.val) return o;    /* octets after s inside the SEQUENCE */
+    o.ok = 1;
     return o;
 }
+#define spec_der_sig_rbyte(b, S_, i) spec_der_int_vbyte((b) + (S_).roff, (S_).R, i)
+#define spec_der_sig_sbyte(b, S_, i) spec_der_int_vbyte((b) + (S_).soff, (S_).S, i)
 
 /* ---- DER encoding of a non-negative integer v < 2^256 (8.3: two's complement, fewest octets) ----
- * writes identifier, length, contents to out (at most 35 octets) and returns the count */
-static size_t spec_der_int_enc(const unsigned char *v32, unsigned char *out) {
-    int i, nz = 0, run = 1; size_t ml, pad, k;
+ * clen: number of content octets; cbyte(j): content octet j (j < clen) */
+static size_t spec_der_int_nz(const unsigned char *v32) {           /* leading zero octets of the 32-byte magnitude */
+    int i, nz = 0, run = 1;
     for (i = 0; i < 32; i++) { if (run && v32[i] == 0) nz++; else run = 0; }
-    ml = 32 - (size_t)nz;                                   /* significant magnitude octets */
-    out[0] = 0x02;
-    if (ml == 0) { out[1] = 1; out[2] = 0x00; return 3; }   /* zero is the single octet 00 */
-    pad = (v32[nz] & 0x80) ? 1 : 0;                         /* keep the sign bit clear */
-    out[1] = (unsigned char)(ml + pad);
-    if (pad) out[2] = 0x00;
-    for (k = 0; k < 32; k++) if (k < ml) out[2 + pad + k] = v32[(size_t)nz + k];
-    return 2 + pad + ml;
+    return (size_t)nz;
 }
-/* DER encoding of SEQUENCE { r, s } into out (at most 72 octets); returns the count */
-static size_t spec_der_sig_enc(const unsigned char *r32, const unsigned char *s32, unsigned char *out) {
-    unsigned char er[35], es[35]; size_t lr, ls, k;
-    lr = spec_der_int_enc(r32, er);
-    ls = spec_der_int_enc(s32, es);
-    out[0] = 0x30;
-    out[1] = (unsigned char)(lr + ls);                      /* <= 70 < 128: short form */
-    for (k = 0; k < 35; k++) if (k < lr) out[2 + k] = er[k];
-    for (k = 0; k < 35; k++) if (k < ls) out[2 + lr + k] = es[k];
-    return 2 + lr + ls;
+static size_t spec_der_int_clen(const unsigned char *v32) {
+    size_t nz = spec_der_int_nz(v32);
+    if (nz == 32) return 1;                                         /* zero is the single octet 00 */
+    return (32 - nz) + ((v32[nz] & 0x80) ? 1 : 0);                  /* a 00 octet keeps the sign bit clear */
+}
+static unsigned char spec_der_int_cbyte(const unsigned char *v32, size_t j) {
+    size_t nz = spec_der_int_nz(v32), pad;
+    if (nz == 32) return 0x00;
+    pad = (v32[nz] & 0x80) ? 1 : 0;
+    if (pad && j == 0) return 0x00;
+    return v32[nz + j - pad];
+}
+/* DER encoding of SEQUENCE { r INTEGER, s INTEGER }: total length and octet k (k < length) */
+static size_t spec_der_sig_enc_len(const unsigned char *r32, const unsigned char *s32) {
+    return 2 + (2 + spec_der_int_clen(r32)) + (2 + spec_der_int_clen(s32));
+}
+static unsigned char spec_der_sig_enc_byte(const unsigned char *r32, const unsigned char *s32, size_t k) {
+    size_t lr = spec_der_int_clen(r32), ls = spec_der_int_clen(s32);
+    if (k == 0) return 0x30;                                        /* SEQUENCE */
+    if (k == 1) return (unsigned char)(4 + lr + ls);                /* <= 70 < 128: short form */
+    if (k == 2) return 0x02;                                        /* INTEGER r */
+    if (k == 3) return (unsigned char)lr;
+    if (k < 4 + lr) return spec_der_int_cbyte(r32, k - 4);
+    if (k == 4 + lr) return 0x02;                                   /* INTEGER s */
+    if (k == 5 + lr) return (unsigned char)ls;
+    return spec_der_int_cbyte(s32, k - 6 - lr);
 }
 
 /* ---- SEC1 2.3.4 octet-string -> point, syntactic part (everything except the curve equation) ----
